@@ -769,7 +769,7 @@ class Script(object):
 
         if len(self.stack) == 0:
             return False
-        if self.stack.pop() == b'':
+        if decode_num(self.stack.pop()) == 0:
             return False
 
         return True
@@ -880,7 +880,7 @@ class Stack(list):
         return True
 
     def op_verify(self):
-        if self.pop() == b'':
+        if decode_num(self.pop()) == 0:
             return False
         return True
 
@@ -922,7 +922,7 @@ class Stack(list):
     def op_ifdup(self):
         if not len(self):
             raise ValueError("Stack op_ifdup method requires minimum of 1 stack item")
-        if self[-1] != b'':
+        if decode_num(self[-1]) != 0:
             self.append(self[-1])
         return True
 
@@ -1012,13 +1012,13 @@ class Stack(list):
     def op_not(self):
         if not self.is_arithmetic():
             return False
-        self.append(b'\1' if self.pop() == b'' else b'')
+        self.append(b'\1' if self.pop_as_number() == 0 else b'')
         return True
 
     def op_0notequal(self):
         if not self.is_arithmetic():
             return False
-        self.append(b'' if self.pop() == b'' else b'\1')
+        self.append(b'' if self.pop_as_number() == 0 else b'\1')
         return True
 
     def op_add(self):
@@ -1044,9 +1044,9 @@ class Stack(list):
     def op_booland(self):
         if not self.is_arithmetic(2):
             return False
-        a = self.pop()
-        b = self.pop()
-        if a != b'' and b != b'':
+        a = self.pop_as_number()
+        b = self.pop_as_number()
+        if a != 0 and b != 0:
             self.append(b'\1')
         else:
             self.append(b'')
@@ -1055,9 +1055,9 @@ class Stack(list):
     def op_boolor(self):
         if not self.is_arithmetic(2):
             return False
-        a = self.pop()
-        b = self.pop()
-        if a != b'' or b != b'':
+        a = self.pop_as_number()
+        b = self.pop_as_number()
+        if a != 0 or b != 0:
             self.append(b'\1')
         else:
             self.append(b'')
@@ -1066,20 +1066,19 @@ class Stack(list):
     def op_numequal(self):
         if not self.is_arithmetic(2):
             return False
-        if self.pop() == self.pop():
+        if self.pop_as_number() == self.pop_as_number():
             self.append(b'\1')
         else:
             self.append(b'')
         return True
 
     def op_numequalverify(self):
-        self.op_numequal()
-        return self.op_verify()
+        return self.op_numequal() and self.op_verify()
 
     def op_numnotequal(self):
         if not self.is_arithmetic(2):
             return False
-        if self.pop() != self.pop():
+        if self.pop_as_number() != self.pop_as_number():
             self.append(b'\1')
         else:
             self.append(b'')
